@@ -87,27 +87,41 @@ def _deliver_direct(main, dgram, addr, iface, watchdog):
 
 
 class UdpPath:
-    """Real UDP loopback: one sending socket per (host, symbolic port); a sentinel message, seen by a raw
-    receive function (not a responder, so invisible to the dispatch model), marks "processed"."""
+    """Real UDP loopback.  One sending socket per symbolic sender (host id, port): port 1 / 2 = the same port NUMBER
+    as the library's main / extra interface (bound on another loopback address: 127.0.0.2, 127.0.0.3 need no
+    configuration on Linux), any other symbolic port = an ephemeral one.  A sentinel message from a well-behaved
+    socket, seen by a raw receive function (not a responder, so invisible to the dispatch model), marks "processed":
+    if it never arrives the library's receive thread no longer processes datagrams."""
     SENTINEL = b'/verif_sentinel\0,\0\0\0'
 
-    def __init__(self, main, hosts, senders):
+    def __init__(self, main, hosts, libports):
         import socket
+        self.socket = socket
         self.main = main
+        self.hosts = hosts
+        self.libports = libports        # {1: main port, 2: extra port}
         self.socks = {}
         self.sym = {}            # (host, real port) -> symbolic port
-        for h, p in senders:
-            s = socket.socket(socket.AF_INET, socket.SOCK_DGRAM)
-            s.bind((hosts[h], 0))
-            self.socks[(h, p)] = s
-            self.sym[(hosts[h], s.getsockname()[1])] = p
-        self.hosts = hosts
         self.ev = threading.Event()
         self.dead = False
+        self.good = self.sock((1, 5009))
         main.add_osc_recv_func(self._sentinel)
 
+    def sock(self, src):
+        if src not in self.socks:
+            h, p = src
+            s = self.socket.socket(self.socket.AF_INET, self.socket.SOCK_DGRAM)
+            if p in self.libports and h != 1:
+                s.setsockopt(self.socket.SOL_SOCKET, self.socket.SO_REUSEADDR, 1)
+                s.bind((self.hosts[h], self.libports[p]))
+            else:
+                s.bind((self.hosts[h], 0))
+            self.socks[src] = s
+            self.sym[(self.hosts[h], s.getsockname()[1])] = p
+        return self.socks[src]
+
     def real_port(self, h, p):
-        return self.socks[(h, p)].getsockname()[1]
+        return self.sock((h, p)).getsockname()[1]
 
     def _sentinel(self, msg, time, addr, port):
         if msg[0] == '/verif_sentinel':
@@ -116,11 +130,10 @@ class UdpPath:
     def deliver(self, dgram, src, settle, port=None):
         if self.dead:
             return 'hang'
-        s = self.socks[src]
         port = port or self.main._osc_interface.port
         self.ev.clear()
-        s.sendto(dgram, ('127.0.0.1', port))
-        s.sendto(self.SENTINEL, ('127.0.0.1', port))
+        self.sock(tuple(src)).sendto(dgram, ('127.0.0.1', port))
+        self.good.sendto(self.SENTINEL, ('127.0.0.1', port))
         if not self.ev.wait(settle):
             self.dead = True        # the receive thread never came back
             return 'hang'
